@@ -23,7 +23,8 @@ def floors(ctx):
     f = {"evaluations": 3000 if ctx.tier == "quick" else 30000,
          "graphs_with_selfloop": 1, "graphs_with_parallel": 1, "graphs_with_mixed_kinds": 1,
          "graphs_with_bridge_out_of_universe": 1, "ff_result_removed_something": 20,
-         "cases_partial_reach": 50, "cases_expect_notimplemented": 5}
+         "cases_partial_reach": 50, "cases_expect_notimplemented": 5,
+         "cases_retraversed_after_in_place_edit": 100, "interleaved_generator_pairs": 1000 if "C06" in WANT else 0}
     for d in oracles.DIRS:
         for u in oracles.UNKS:
             for un in ("uni", "nouni"):
@@ -48,6 +49,21 @@ def run(ctx, want=WANT, scale=1):
                 ctx.count("graphs_with_" + f)
             ctx.count(f"cell_{dname}_{uname}_{'uni' if spec.get('uni') is not None else 'nouni'}")
             trav.run_case(ctx, nc, spec, si, dname, uname, vname, rname, cache, want)
+            if seen_specs % 5 == 0 and len(spec["verts"]) <= 40:
+                # traverse, edit the same objects in place keeping every size, traverse again
+                nv, ne = len(spec["verts"]), len(spec["edges"])
+                muts = []
+                if spec.get("uni") is not None:
+                    ins = [i for i in range(nv) if i not in spec["uni"]]
+                    outs = [i for i in spec["uni"] if i != si]
+                    if ins and outs:
+                        muts.append(["uni_swap", rng.choice(outs), rng.choice(ins)])
+                if ne and rng.random() < 0.6:
+                    muts.append(["repoint", rng.randrange(ne), rng.randrange(nv)])
+                if ne and rng.random() < 0.4:
+                    muts.append(["relink", rng.randrange(ne)])
+                if muts:
+                    trav.run_case(ctx, nc, spec, si, dname, uname, vname, rname, cache, want, then=muts)
             seen_specs += 1
             if seen_specs in (5, 900, 2500) and ctx.shard == 0:
                 ctx.sample({"spec": spec, "start": si, "dir": dname, "unk": uname, "via": vname, "res": rname, "cache": cache})
@@ -62,6 +78,6 @@ def run(ctx, want=WANT, scale=1):
 def replay(ctx, case):
     with oracles.NeighborCounter() as nc:
         trav.run_case(ctx, nc, case["spec"], case["start"], case["dir"], case["unk"], case["via"], case["res"],
-                      case["cache"], WANT)
+                      case["cache"], WANT, then=case.get("then"))
     ctx.nontrivial("replay-a")
     ctx.nontrivial("replay-b")
